@@ -445,9 +445,19 @@ func runScript(t *testing.T, line string) (res string) {
 		closedIn := make([]bool, len(ins))
 		synctest.Wait()
 		obs = append(obs, "i:"+lens(ins, closedIn, outs))
-		for _, mv := range moves {
+		// one executes a single environment move (no waiting for quiescence) and returns its result
+		var one func(mv string) string
+		one = func(mv string) string {
 			var r string
 			switch mv[0] {
+			case 'b': // burst: sub-moves separated by ',' run back to back, quiescence is awaited only after the last one
+				rs := []string{}
+				for _, sub := range strings.Split(mv[1:], ",") {
+					if sub != "" && sub[0] != 'b' {
+						rs = append(rs, one(sub))
+					}
+				}
+				r = strings.Join(rs, ",")
 			case 's':
 				j, v := 0, 0
 				if p := strings.SplitN(mv[1:], ":", 2); len(p) == 2 {
@@ -485,6 +495,11 @@ func runScript(t *testing.T, line string) (res string) {
 			case 'x':
 				cancel()
 				r = "ok"
+				if closesInOnCancel[c.stage] {
+					for j := range closedIn {
+						closedIn[j] = true
+					}
+				}
 			case 'g':
 				v, _ := strconv.Atoi(mv[1:])
 				r = e.release(v)
@@ -516,12 +531,21 @@ func runScript(t *testing.T, line string) (res string) {
 			default:
 				r = "bad"
 			}
+			return r
+		}
+		for _, mv := range moves {
+			r := one(mv)
 			synctest.Wait()
 			obs = append(obs, mv+":"+r+lens(ins, closedIn, outs))
 		}
 		// teardown: everything must be able to exit, else synctest reports a deadlock (= a leak)
 		cancel()
 		e.releaseAll()
+		if closesInOnCancel[c.stage] {
+			for j := range closedIn {
+				closedIn[j] = true
+			}
+		}
 		for j := range ins {
 			if !closedIn[j] {
 				close(ins[j])
@@ -554,6 +578,10 @@ func runScript(t *testing.T, line string) (res string) {
 }
 
 var special = map[string]func(context.Context, *env) ([]chan int, []outp){}
+
+// stages that close their send side themselves once the context is cancelled (pipe.New): after a
+// cancel the harness must neither send on nor close those inputs (it answers `nope`)
+var closesInOnCancel = map[string]bool{}
 
 func TestLockstep(t *testing.T) {
 	inp, outp := os.Getenv("LOCKSTEP_IN"), os.Getenv("LOCKSTEP_OUT")
